@@ -89,7 +89,7 @@ def check_shapes(ctx, f, g, lp, pv):
     ctx.ob(5, "K5", "the class of a pipeline is drawn by rng.choice over the priority values with the configured probabilities", okc and prv is not None, f, ch[0] if ch else lp,
            construct="rng.choice(a=priority_values, p=priority_probs)", detail=f"{[norm.U(c) for c in ch]}")
     ctor = [c for c in ast.walk(lp) if isinstance(c, ast.Call) and norm.call_name(c) == "Pipeline"]
-    okp = len(ctor) == 1 and prv and norm.U(ctor[0].args[1]) == f"Priority({prv})"
+    okp = len(ctor) == 1 and prv and len(ctor[0].args) >= 2 and norm.U(norm.subst(ctor[0].args[1], le)) == f"Priority({prv})"
     ctx.ob(5, "K6", "the pipeline's priority is the class that was drawn", bool(okp), f, ctor[0] if ctor else lp, construct="Pipeline(id, Priority(drawn value))", detail=f"{[norm.U(c) for c in ctor]}")
     # the query branch
     qif = [n for n in lp.body if isinstance(n, ast.If) and prv and norm.nnf(n.test) == norm.mk_cmp("==", "Priority.QUERY.value", prv)]
@@ -126,7 +126,12 @@ def check_shapes(ctx, f, g, lp, pv):
     # the draw of the count
     if cnt:
         cdefs = [n for n in ast.walk(lp) if isinstance(n, ast.Assign) and norm.is_name(n.targets[0], cnt) and isinstance(n.value, ast.Call)]
-        okd = any(norm.U(d.value).replace(" ", "") == "int(self.rng.normal(self.num_operators,self.num_operators/4))" for d in cdefs)
+        def _draw(v):
+            # the floor at 1 may be folded into the draw:  max(1, int(normal(...)))
+            while isinstance(v, ast.Call) and norm.call_name(v) == "max" and len(v.args) == 2 and not v.keywords and any(isinstance(a_, ast.Constant) and a_.value == 1 for a_ in v.args):
+                v = [a_ for a_ in v.args if not isinstance(a_, ast.Constant)][0] if any(not isinstance(a_, ast.Constant) for a_ in v.args) else v.args[0]
+            return norm.U(v).replace(" ", "")
+        okd = any(_draw(d.value) == "int(self.rng.normal(self.num_operators,self.num_operators/4))" for d in cdefs)
         ctx.ob(3, "K7", "the operator count is drawn around num_operators (int of a normal draw with mean num_operators)", okd, f, cdefs[0] if cdefs else o, construct="operator-count draw",
                detail=f"{[stmt_text(d) for d in cdefs]}")
     ops = [c for c in ast.walk(o) if isinstance(c, ast.Call) and norm.call_name(c) == "new_operator"]
@@ -160,29 +165,32 @@ def check_shapes(ctx, f, g, lp, pv):
     ctx.ob(3, "K3", "every operator gets exactly one segment", bool(segs) and one and two is None, f, segs[0] if segs else o, construct="one segment per operator",
            detail=f"add_segment sites: {len(segs)}; at least one per operator: {one}; at most one: {two is None}")
     # first operator: the most I/O-heavy prototype; later ones: drawn from cpu_io_ratio
+    from . import sched
+    producers = []   # (add_segment site, expression producing the segment, program point whose guard decides it)
     for c in segs:
-        st = poolstmt(c)
         arg = norm.subst(c.args[0], loop_env(o))
         if isinstance(arg, ast.Name):
-            from . import sched
             ds = [d_ for d_ in sched.reaching_defs(f, go, c, arg.id) if isinstance(d_, ast.Assign)]
-            if len(ds) == 1:
-                arg = ds[0].value
-        fs = go.facts_at(c)
+            if ds:
+                producers += [(c, d_.value, d_) for d_ in ds]
+                continue
+        producers.append((c, arg, c))
+    for c, arg, at in producers:
+        fs = go.facts_at(at)
         first = prevv is not None and norm.entails(fs, ("cmp", "is", prevv, "None"))
         later = prevv is not None and (norm.entails(fs, ("cmp", "isnot", prevv, "None")) or norm.entails(fs, ("truth", prevv, True)))
-        if not go.reachable(go.node_of(c).id):
-            ctx.ob(4, "K10", "every segment-producing call site in the operator loop is live", False, f, c, construct=f"dead call site: {norm.U(arg)}",
-                   detail="this add_segment call can never execute (its guard contradicts what is known there) — the parameter it depends on has no effect")
+        if not go.reachable(go.node_of(at).id):
+            ctx.ob(4, "K10", "every segment-producing call site in the operator loop is live", False, f, at, construct=f"dead call site: {norm.U(arg)}",
+                   detail="this segment-producing call can never execute (its guard contradicts what is known there) — the parameter it depends on has no effect")
             continue
         if first:
             ok = norm.U(arg) == "self.generate_segment_from_val(-2)"
-            ctx.ob(4, "K6", "the first operator of a pipeline is the I/O-heavy one (prototype of val < -1)", ok, f, c, detail=f"segment: {norm.U(arg)}")
+            ctx.ob(4, "K6", "the first operator of a pipeline is the I/O-heavy one (prototype of val < -1)", ok, f, at, detail=f"segment: {norm.U(arg)}")
         elif later:
             ok = norm.U(arg) in ("self.generate_segment_not_heavy_io()", "self.generate_segment()")
-            ctx.ob(4, "K6", "later operators draw their prototype from the cpu_io_ratio-centred distribution", ok, f, c, detail=f"segment: {norm.U(arg)}")
+            ctx.ob(4, "K6", "later operators draw their prototype from the cpu_io_ratio-centred distribution", ok, f, at, detail=f"segment: {norm.U(arg)}")
         else:
-            ctx.ob(4, "K2", "which prototype an operator gets is decided by whether it is the pipeline's first operator", False, f, c, construct="prototype choice guard",
+            ctx.ob(4, "K2", "which prototype an operator gets is decided by whether it is the pipeline's first operator", False, f, at, construct="prototype choice guard",
                    detail=f"facts: {sorted(norm.show(x) for x in fs)} (required: a test of `{prevv} is None`)")
 
 
